@@ -165,6 +165,19 @@ def executable_lines(relfile, lo, hi):
     return out
 
 
+def function_spans(relfile, names):
+    """(first, last) source lines of every function/method with one of the given names."""
+    import ast
+    from vf.core import yp
+    with open(os.path.join(yp.REPO_ROOT, relfile), "r", encoding="utf-8") as f:
+        tree = ast.parse(f.read())
+    out = []
+    for node in ast.walk(tree):
+        if isinstance(node, (ast.FunctionDef, ast.AsyncFunctionDef)) and node.name in names:
+            out.append((node.lineno, node.end_lineno))
+    return out
+
+
 def load_known():
     p = os.path.join(VERIF_ROOT, "known_findings.json")
     if not os.path.exists(p):
@@ -260,7 +273,27 @@ def coordinator(prop, tier, seed, nshards=None):
             inconclusive.append("finish() failed: " + traceback.format_exc()[-1500:])
     # ---- reach ------------------------------------------------------------
     reach_report = {}
-    for (relfile, lo, hi, label) in getattr(mod, "REACH", []) or []:
+    for entry in getattr(mod, "REACH", []) or []:
+        if len(entry) == 3:          # (file, "func1,func2", label): ranges resolved from the source itself
+            relfile, names, label = entry
+            try:
+                spans = function_spans(relfile, names.split(","))
+            except Exception as e:
+                reach_report[label] = {"error": repr(e)}
+                continue
+            if not spans:
+                inconclusive.append("anchored function(s) not found: %s %s" % (relfile, names))
+                continue
+            exl, hitl = set(), set()
+            for lo, hi in spans:
+                exl |= executable_lines(relfile, lo, hi)
+                hitl |= {ln for (f, ln) in reach if f == relfile and lo <= ln <= hi}
+            reach_report[label] = {"file": relfile, "functions": names, "lines_hit": len(hitl & exl) or len(hitl),
+                                   "lines_executable": len(exl)}
+            if not hitl and results:
+                inconclusive.append("anchored functions never executed: %s" % label)
+            continue
+        relfile, lo, hi, label = entry
         try:
             ex = executable_lines(relfile, lo, hi)
         except Exception as e:  # file moved: cannot measure
